@@ -30,6 +30,7 @@ EXPLANATION = (
     "amplitude vs knee, both sums range over the same cycle vector and the numerator sums all classes. Not decided: the "
     "numerical identity damage = 1, damage ordering original <= Haibach <= elementary.")
 EXPLANATION += (' R-C11-6: no write reaches the Woehler curve data handed to the Miner classes. R-C11-7: the damage of a collective does not depend on the order of its members (order-class analysis).')
+EXPLANATION += (" R-C11-8: the Gassner cycles (cycles at the largest amplitude times the lifetime multiple of each Miner rule) combine quantities of one failure-probability level only: cycles()/load() evaluate the curve transformed to 50 %, so a lifetime multiple must not read the object's own SD / ND (interprocedural level typing over the Miner classes).")
 ASSUMPTIONS = ["builtin min/max on floats; np.dot is the plain sum of products"]
 
 
@@ -41,6 +42,81 @@ def run(ctx):
     ctx.attempt(_r5)
     ctx.attempt(_r6)
     ctx.attempt(_r7)
+    ctx.attempt(_r8)
+
+
+LEVEL_DEPENDENT = ("SD", "ND")      # curve parameters that change with the failure probability
+
+
+def _prob_level(prog, ci, fi, e, depth=0):
+    """Which failure-probability level does an expression of a Woehler-curve accessor method refer to?
+    'P50' - evaluated on the curve transformed to the default 50 % (cycles()/load() without an explicit probability,
+    transform_to_failure_probability(0.5)...), 'NATIVE' - a level-dependent parameter (SD, ND) read from the object as it is."""
+    out = set()
+
+    def visit(n):
+        if isinstance(n, ast.Call) and isinstance(n.func, ast.Attribute):
+            f = n.func
+            if f.attr == "transform_to_failure_probability":
+                out.add("P50" if n.args and const_value(n.args[0]) == 0.5 else "OTHER")
+                return                      # do not descend: attributes of the transformed curve are at that level
+            if is_self_attr(f) and f.attr in ("cycles", "load", "basquin_cycles", "basquin_load"):
+                explicit = len(n.args) > 1 or any(k.arg == "failure_probability" for k in n.keywords)
+                out.add("OTHER" if explicit else "P50")
+                for a in n.args:
+                    visit(a)
+                return
+            if is_self_attr(f) and depth < 3:
+                for cand in [ci] + list(prog.subclasses(ci.key)):
+                    callee = prog.lookup_method(cand, f.attr)
+                    if callee is not None and callee.module.name == fi.module.name:
+                        for st in walk_function(callee.node):
+                            if isinstance(st, ast.Return) and st.value is not None:
+                                out.update(_prob_level(prog, cand, callee, st.value, depth + 1))
+                            elif isinstance(st, ast.Assign):
+                                out.update(_prob_level(prog, cand, callee, st.value, depth + 1))
+        if isinstance(n, ast.Attribute) and is_self_attr(n) and n.attr in LEVEL_DEPENDENT:
+            out.add("NATIVE")
+        if isinstance(n, ast.Attribute) and not is_self_attr(n) and n.attr in LEVEL_DEPENDENT and isinstance(n.value, ast.Call):
+            visit(n.value)
+            return
+        for c in ast.iter_child_nodes(n):
+            visit(c)
+    visit(e)
+    return out
+
+
+def _r8(ctx):
+    """One failure-probability level per lifetime formula.  cycles()/load() (and the damage calculation built on them) evaluate
+    the curve transformed to 50 %; a formula that multiplies such a value with a term computed from the object's own SD / ND
+    mixes two levels whenever the curve's native failure probability is not 50 % - the Gassner cycles then do not give a
+    damage sum of one."""
+    prog = ctx.prog
+    ctx.rule("R-C11-8", floor=2, what="Gassner cycles combine quantities of one failure-probability level only")
+    base = prog.cls(MINER + ":MinerBase")
+    g = prog.lookup_method(base, "gassner_cycles")
+    ret = [s_ for s_ in walk_function(g.node) if isinstance(s_, ast.Return) and s_.value is not None]
+    if not ret:
+        raise AnalysisError("gassner_cycles: return not found")
+    n = 0
+    for ci in prog.subclasses(base.key):
+        if "lifetime_multiple" not in ci.methods:
+            continue
+        lv = set()
+        for r in ret:
+            lv |= _prob_level(prog, ci, g, r.value)
+        lm = prog.lookup_method(ci, "lifetime_multiple")
+        n += 1
+        if "NATIVE" in lv and "P50" in lv:
+            nat = [x for x in ast.walk(lm.node) if isinstance(x, ast.Attribute) and is_self_attr(x) and x.attr in LEVEL_DEPENDENT]
+            ctx.violated(lm, nat[0]._parent if nat else lm.node, "%s: the Gassner cycles multiply cycles() - evaluated on the curve "
+                         "transformed to 50 %% failure probability - with a lifetime multiple computed from the object's own %s: for a "
+                         "curve whose native failure probability is not 50 %% the damage sum at the Gassner cycles is not one" %
+                         (ci.name, "/".join(sorted({x.attr for x in nat})) or "SD/ND"), text="probability levels " + ci.name)
+        else:
+            ctx.holds(lm, lm.node, "%s: Gassner cycles use level(s) %s only" % (ci.name, sorted(lv) or ["level-free"]))
+    if n == 0:
+        raise AnalysisError("no Miner rule with a lifetime multiple found")
 
 
 def _r6(ctx):
@@ -399,6 +475,14 @@ FP = "src/pylife/strength/fatigue.py"
 
 def variants():
     out = []
+
+    def native_sd(tree):
+        f = find_func(tree, "MinerHaibach.lifetime_multiple")
+        for n in ast.walk(f):
+            if isinstance(n, ast.Attribute) and n.attr == "SD" and isinstance(n.value, ast.Call):
+                return replace_node(n, parse_expr("self.SD"))
+        return False
+    out.append(witness("Haibach lifetime multiple reads the native SD", MP, native_sd, "R-C11-8"))
 
     def no_lower(tree):
         f = find_func(tree, "effective_damage_sum")
